@@ -1,2 +1,722 @@
-// Package core registers the generators of the core packages (fields, formats, params/rows, done, eed, envchange).
+// Package core registers the generators of the core packages: field formats (PARAMFMT/2, ROWFMT/2),
+// field data (PARAMS, ROW), DONE family, EED, ENVCHANGE.  Everything a server sends is produced by
+// the reference encoders in this file (written from the TDS 5.0 layouts), never by the library's writers.
 package core
+
+import (
+	"encoding/binary"
+	"fmt"
+
+	"github.com/SAP/go-dblib/asetypes"
+	"github.com/SAP/go-dblib/tds"
+	"verifharness/pk"
+	"verifharness/sx"
+)
+
+// ---------------------------------------------------------------- reference layout of data types
+type dtInfo struct {
+	dt       asetypes.DataType
+	fixed    int // size of fixed-length types, -1 otherwise
+	lenBytes int // bytes of the length prefix of variable-length types
+	kind     int // 1 plain, 2 scale, 3 precision+scale, 5 text pointer
+	lens     []int // valid data lengths to generate (variable types)
+}
+
+var dts = []dtInfo{
+	{asetypes.INT1, 1, 0, 1, nil}, {asetypes.INT2, 2, 0, 1, nil}, {asetypes.INT4, 4, 0, 1, nil}, {asetypes.INT8, 8, 0, 1, nil},
+	{asetypes.UINT2, 2, 0, 1, nil}, {asetypes.UINT4, 4, 0, 1, nil}, {asetypes.UINT8, 8, 0, 1, nil},
+	{asetypes.FLT4, 4, 0, 1, nil}, {asetypes.FLT8, 8, 0, 1, nil}, {asetypes.BIT, 1, 0, 1, nil},
+	{asetypes.MONEY, 8, 0, 1, nil}, {asetypes.SHORTMONEY, 4, 0, 1, nil},
+	{asetypes.DATE, 4, 0, 1, nil}, {asetypes.TIME, 4, 0, 1, nil}, {asetypes.SHORTDATE, 4, 0, 1, nil}, {asetypes.DATETIME, 8, 0, 1, nil},
+	{asetypes.INTN, -1, 1, 1, []int{0, 1, 2, 4, 8}}, {asetypes.UINTN, -1, 1, 1, []int{0, 1, 2, 4, 8}},
+	{asetypes.FLTN, -1, 1, 1, []int{0, 4, 8}}, {asetypes.MONEYN, -1, 1, 1, []int{0, 4, 8}},
+	{asetypes.DATEN, -1, 1, 1, []int{0, 4}}, {asetypes.TIMEN, -1, 1, 1, []int{0, 4}}, {asetypes.DATETIMEN, -1, 1, 1, []int{0, 4, 8}},
+	{asetypes.CHAR, -1, 1, 1, []int{0, 1, 2, 17, 254, 255}}, {asetypes.VARCHAR, -1, 1, 1, []int{0, 1, 2, 30, 254, 255}},
+	{asetypes.BINARY, -1, 1, 1, []int{0, 1, 3, 254, 255}}, {asetypes.VARBINARY, -1, 1, 1, []int{0, 1, 3, 254, 255}},
+	{asetypes.LONGCHAR, -1, 4, 1, []int{0, 1, 255, 256, 700}}, {asetypes.LONGBINARY, -1, 4, 1, []int{0, 1, 255, 256, 700}},
+	{asetypes.BIGDATETIMEN, -1, 1, 2, []int{0, 8}}, {asetypes.BIGTIMEN, -1, 1, 2, []int{0, 8}},
+	{asetypes.DECN, -1, 1, 3, []int{0, 1, 2, 5, 17, 33}}, {asetypes.NUMN, -1, 1, 3, []int{0, 1, 2, 5, 17, 33}},
+	{asetypes.TEXT, -1, 4, 5, []int{0, 1, 300}}, {asetypes.IMAGE, -1, 4, 5, []int{0, 1, 300}},
+	{asetypes.UNITEXT, -1, 4, 5, []int{0, 2, 300}}, {asetypes.XML, -1, 4, 5, []int{0, 1, 300}},
+	// types with a format but whose values the library cannot decode (GoValue: unhandled): formats only
+	{asetypes.SENSITIVITY, -1, 1, 1, nil}, {asetypes.BOUNDARY, -1, 1, 1, nil}, {asetypes.INTERVAL, 8, 0, 1, nil}, {asetypes.SINT1, 1, 0, 1, nil},
+}
+
+// Fmt is the reference view of one column / parameter format.
+type Fmt struct {
+	info                          dtInfo
+	name, locale                  string
+	status                        uint32
+	userType                      int32
+	maxLen                        int64
+	prec, scale                   int
+	tabName                       string
+	label, cat, schema, table     string // ROWFMT2 only
+}
+
+func presetMax(dt asetypes.DataType) int64 {
+	f, err := tds.LookupFieldFmt(dt)
+	if err != nil {
+		return 0
+	}
+	return f.MaxLength()
+}
+
+func lenPrefix(n int, v int64) []byte {
+	switch n {
+	case 4:
+		return pk.LE32(v)
+	case 2:
+		return pk.LE16(int(v))
+	}
+	return []byte{byte(v)}
+}
+
+// reference encoding of the data-type dependent part of a format
+func (f Fmt) tail() []byte {
+	var b []byte
+	if f.info.fixed < 0 {
+		b = append(b, lenPrefix(f.info.lenBytes, f.maxLen)...)
+	}
+	switch f.info.kind {
+	case 2:
+		b = append(b, byte(f.scale))
+	case 3:
+		b = append(b, byte(f.prec), byte(f.scale))
+	case 5:
+		b = append(b, pk.LP16([]byte(f.tabName))...)
+	}
+	return b
+}
+
+func (f Fmt) encode(wide, row bool) []byte {
+	var b []byte
+	if row && wide {
+		b = pk.Cat(pk.LP8([]byte(f.label)), pk.LP8([]byte(f.cat)), pk.LP8([]byte(f.schema)), pk.LP8([]byte(f.table)))
+	}
+	b = append(b, pk.LP8([]byte(f.name))...)
+	if wide {
+		b = append(b, pk.LE32(int64(f.status))...)
+	} else {
+		b = append(b, byte(f.status))
+	}
+	b = append(b, pk.LE32(int64(f.userType))...)
+	b = append(b, byte(f.info.dt))
+	b = append(b, f.tail()...)
+	b = append(b, pk.LP8([]byte(f.locale))...)
+	return b
+}
+
+func (f Fmt) tree(wide, row bool) sx.T {
+	ml := f.maxLen
+	if f.info.fixed >= 0 {
+		ml = presetMax(f.info.dt)
+	}
+	t := sx.L{sx.I(int64(f.info.dt)), pk.S(f.name), sx.I(int64(f.status)), sx.I(int64(f.userType)), pk.S(f.locale),
+		sx.I(ml), sx.I(int64(f.prec)), sx.I(int64(f.scale)), sx.I(0), pk.S(""), pk.S(f.tabName)}
+	if row && wide {
+		t = append(t, pk.S(f.label), pk.S(f.cat), pk.S(f.schema), pk.S(f.table))
+	} else {
+		t = append(t, pk.S(""), pk.S(""), pk.S(""), pk.S(""))
+	}
+	return t
+}
+
+// FmtTree renders a library FieldFmt the same way.
+func FmtTree(f tds.FieldFmt) sx.T {
+	prec, scale := 0, 0
+	if p, ok := f.(interface{ Precision() uint8 }); ok {
+		prec = int(p.Precision())
+	}
+	if s, ok := f.(interface{ Scale() uint8 }); ok {
+		scale = int(s.Scale())
+	}
+	bt, cid, tab := tds.VerifFmtExtras(f)
+	return sx.L{sx.I(int64(f.DataType())), pk.S(f.Name()), sx.I(int64(f.Status())), sx.I(int64(f.UserType())), pk.S(f.LocaleInfo()),
+		sx.I(f.MaxLength()), sx.I(int64(prec)), sx.I(int64(scale)), sx.I(int64(bt)), pk.S(cid), pk.S(tab),
+		pk.S(f.ColumnLabel()), pk.S(f.Catalogue()), pk.S(f.Schema()), pk.S(f.Table())}
+}
+
+func fmtsTree(fs []tds.FieldFmt) sx.T {
+	l := sx.L{}
+	for _, f := range fs {
+		l = append(l, FmtTree(f))
+	}
+	return l
+}
+
+// reference encoding of a whole format package body (after the token)
+func fmtBody(fs []Fmt, wide, row bool) []byte {
+	var fields []byte
+	for _, f := range fs {
+		fields = append(fields, f.encode(wide, row)...)
+	}
+	total := int64(2 + len(fields))
+	var b []byte
+	if wide {
+		b = pk.LE32(total)
+	} else {
+		b = pk.LE16(int(total))
+	}
+	b = append(b, pk.LE16(len(fs))...)
+	return append(b, fields...)
+}
+
+func fmtToken(wide, row bool) int {
+	switch {
+	case row && wide:
+		return int(tds.TDS_ROWFMT2)
+	case row:
+		return int(tds.TDS_ROWFMT)
+	case wide:
+		return int(tds.TDS_PARAMFMT2)
+	}
+	return int(tds.TDS_PARAMFMT)
+}
+
+func randName(g *pk.Gen, max int) string {
+	n := []int{0, 1, 5, max - 1, max}[g.Rng.Intn(5)]
+	if n < 0 {
+		n = 0
+	}
+	b := make([]byte, n)
+	for i := range b {
+		b[i] = byte('a' + g.Rng.Intn(26))
+	}
+	return string(b)
+}
+
+func randFmt(g *pk.Gen, info dtInfo, wide, row bool, colStatus bool) Fmt {
+	f := Fmt{info: info, name: randName(g, 255), locale: randName(g, 20)}
+	statuses := []uint32{0, 0x20, 0x10, 0x01}
+	f.status = statuses[g.Rng.Intn(len(statuses))]
+	if wide && g.Rng.Intn(4) == 0 {
+		f.status |= 0x10000
+	}
+	if colStatus {
+		f.status |= 0x8
+	} else {
+		f.status &^= 0x8
+	}
+	f.userType = []int32{0, 1, -1, 2147483647, -2147483648, 35}[g.Rng.Intn(6)]
+	switch info.lenBytes {
+	case 1:
+		f.maxLen = int64([]int{0, 1, 8, 255}[g.Rng.Intn(4)])
+	case 4:
+		f.maxLen = []int64{0, 1, 255, 65536, 2147483647, 4294967295}[g.Rng.Intn(6)]
+	}
+	if info.kind == 3 {
+		f.prec, f.scale = g.Rng.Range(1, 38), g.Rng.Intn(39)
+	}
+	if info.kind == 2 {
+		f.scale = g.Rng.Intn(7)
+	}
+	if info.kind == 5 {
+		f.tabName = randName(g, 300)
+	}
+	if row && wide {
+		f.label, f.cat, f.schema, f.table = randName(g, 255), randName(g, 30), randName(g, 30), randName(g, 30)
+	}
+	return f
+}
+
+// ---------------------------------------------------------------- data fields
+func randBytes(g *pk.Gen, n int) []byte { return g.Rng.Bytes(n) }
+
+// value bytes of a type that the library re-encodes to exactly the same bytes
+func randValue(g *pk.Gen, info dtInfo, n int) []byte {
+	b := randBytes(g, n)
+	le32 := func(v int64) []byte { return pk.LE32(v) }
+	switch info.dt {
+	case asetypes.BIT:
+		b[0] = byte(g.Rng.Intn(2))
+	case asetypes.DECN, asetypes.NUMN:
+		if n >= 1 {
+			b[0] = byte(g.Rng.Intn(2))
+			if n >= 2 && b[1] == 0 {
+				b[1] = 1
+			}
+			if n == 1 {
+				b[0] = 0
+			}
+		}
+	case asetypes.DATE, asetypes.DATEN:
+		if n == 4 {
+			copy(b, le32(int64(g.Rng.Range(-693595, 2958463))))
+		}
+	case asetypes.TIME, asetypes.TIMEN:
+		if n == 4 {
+			copy(b, le32(int64(g.Rng.Intn(25920000))))
+		}
+	case asetypes.SHORTDATE:
+		binary.LittleEndian.PutUint16(b[2:], uint16(g.Rng.Intn(1440)))
+	case asetypes.DATETIME, asetypes.DATETIMEN:
+		if n == 8 {
+			copy(b, le32(int64(g.Rng.Range(-693595, 2958463))))
+			copy(b[4:], le32(int64(g.Rng.Intn(25920000))))
+		}
+		if n == 4 {
+			binary.LittleEndian.PutUint16(b[2:], uint16(g.Rng.Intn(1440)))
+		}
+	case asetypes.BIGDATETIMEN:
+		if n == 8 {
+			binary.LittleEndian.PutUint64(b, uint64(g.Rng.U64()%315537897600000000))
+		}
+	case asetypes.BIGTIMEN:
+		if n == 8 {
+			binary.LittleEndian.PutUint64(b, uint64(g.Rng.U64()%86400000000))
+		}
+	}
+	return b
+}
+
+// Data is the reference view of one data field.
+type Data struct {
+	status       int
+	raw          []byte
+	txtPtr, ts   []byte
+}
+
+func (d Data) encode(f Fmt) []byte {
+	var b []byte
+	if f.status&0x8 != 0 {
+		b = append(b, byte(d.status))
+	}
+	if f.info.kind == 5 {
+		b = append(b, pk.LP8(d.txtPtr)...)
+		b = append(b, d.ts...)
+		b = append(b, pk.LE32(int64(len(d.raw)))...)
+		return append(b, d.raw...)
+	}
+	if f.info.fixed < 0 {
+		b = append(b, lenPrefix(f.info.lenBytes, int64(len(d.raw)))...)
+	}
+	return append(b, d.raw...)
+}
+
+func (d Data) tree() sx.T {
+	return sx.L{sx.I(int64(d.status)), sx.B(d.raw), sx.B(d.txtPtr), sx.B(d.ts), sx.I(0), pk.S(""), pk.S("")}
+}
+
+// DataTree renders a library FieldData: the value is re-encoded with the library's own value encoder
+// using the raw length the generator knows (value-level codecs are properties C04/C05).
+func DataTree(d tds.FieldData, rawLen int) sx.T {
+	tp, ts := tds.VerifDataExtras(d)
+	var raw []byte
+	switch v := d.Value().(type) {
+	case nil:
+		raw = nil
+	default:
+		_ = v
+		if _, _, tab := tds.VerifFmtExtras(d.Format()); tab != "" || isTxtPtr(d.Format().DataType()) {
+			if bs, ok := d.Value().([]byte); ok {
+				raw = bs
+			}
+		} else {
+			bs, err := d.Format().DataType().Bytes(binary.LittleEndian, d.Value(), int64(rawLen))
+			if err != nil {
+				raw = []byte(fmt.Sprintf("ENCODE-ERROR %v", err))
+			} else {
+				raw = bs
+			}
+		}
+	}
+	return sx.L{sx.I(int64(d.Status())), sx.B(raw), sx.B(tp), sx.B(ts), sx.I(0), pk.S(""), pk.S("")}
+}
+
+func isTxtPtr(dt asetypes.DataType) bool {
+	return dt == asetypes.TEXT || dt == asetypes.IMAGE || dt == asetypes.UNITEXT || dt == asetypes.XML
+}
+
+func ctxTree(fs []Fmt, wide, row bool) sx.T {
+	l := sx.L{}
+	for _, f := range fs {
+		l = append(l, f.tree(wide, row))
+	}
+	return sx.L{sx.I(1), l}
+}
+
+// parse a reference-encoded format package with the library to obtain the "last package" for rows/params
+func libFormat(fs []Fmt, wide, row bool) tds.Package {
+	p := pk.Parse(fmtToken(wide, row), fmtBody(fs, wide, row), nil)
+	if p.Class != 0 {
+		return nil
+	}
+	return p.Pkg
+}
+
+func init() {
+	pk.Register(genFormats)
+	pk.Register(genData)
+	pk.Register(genDone)
+	pk.Register(genEed)
+	pk.Register(genEnv)
+}
+
+func genFormats(g *pk.Gen) {
+	reps := 2
+	if g.Thorough {
+		reps = 20
+	}
+	for _, wide := range []bool{false, true} {
+		for _, row := range []bool{false, true} {
+			tok := fmtToken(wide, row)
+			render := func(p tds.Package) sx.T {
+				switch t := p.(type) {
+				case *tds.ParamFmtPackage:
+					return fmtsTree(t.Fmts)
+				case *tds.RowFmtPackage:
+					return fmtsTree(t.Fmts)
+				}
+				return sx.L{}
+			}
+			// empty package, every data type alone, then random mixes
+			var sets [][]Fmt
+			sets = append(sets, nil)
+			for r := 0; r < reps; r++ {
+				for _, info := range dts {
+					sets = append(sets, []Fmt{randFmt(g, info, wide, row, g.Rng.Bool())})
+				}
+				for m := 0; m < 6; m++ {
+					n := g.Rng.Range(2, 6)
+					var fs []Fmt
+					for i := 0; i < n; i++ {
+						fs = append(fs, randFmt(g, dts[g.Rng.Intn(len(dts))], wide, row, g.Rng.Bool()))
+					}
+					sets = append(sets, fs)
+				}
+			}
+			for _, fs := range sets {
+				body := fmtBody(fs, wide, row)
+				exp := sx.L{}
+				for _, f := range fs {
+					exp = append(exp, f.tree(wide, row))
+				}
+				tag := fmt.Sprintf("fmt-%x;cols=%d", tok, len(fs))
+				g.DecCase(tok, body, nil, nil, exp, render, tag)
+				// the library writes PARAMFMT/2 itself: write back what it parsed, compare with the reference bytes
+				if !row {
+					if p := libFormat(fs, wide, row); p != nil {
+						refok := func(bs []byte) bool { return string(bs) == string(append([]byte{byte(tok)}, body...)) }
+						g.EncCase(tok, exp, p, refok, "enc-"+tag)
+					}
+				}
+				// malformed: total length and count fields off by one / boundary values, truncations, extensions
+				if len(body) >= 4 {
+					for _, delta := range []int{-1, 1} {
+						m := append([]byte{}, body...)
+						m[0] = byte(int(m[0]) + delta)
+						g.MalCase(tok, m, nil, nil, "mal-total;"+tag)
+						m2 := append([]byte{}, body...)
+						off := 2
+						if wide {
+							off = 4
+						}
+						m2[off] = byte(int(m2[off]) + delta)
+						g.MalCase(tok, m2, nil, nil, "mal-count;"+tag)
+					}
+					m3 := append(append([]byte{}, body...), 0, 1, 2)
+					g.MalCase(tok, m3, nil, nil, "mal-extended;"+tag)
+					for k := 0; k < 3; k++ {
+						m4 := append([]byte{}, body...)
+						m4[g.Rng.Intn(len(m4))] = byte(g.Rng.Intn(256))
+						g.MalCase(tok, m4, nil, nil, "mal-mutated;"+tag)
+					}
+				}
+			}
+			// arbitrary bytes after the token
+			nr := 200
+			if g.Thorough {
+				nr = 5000
+			}
+			for i := 0; i < nr; i++ {
+				g.MalCase(tok, g.Rng.Bytes(g.Rng.Intn(40)), nil, nil, fmt.Sprintf("mal-random;fmt-%x", tok))
+			}
+		}
+	}
+}
+
+func genData(g *pk.Gen) {
+	reps := 2
+	if g.Thorough {
+		reps = 20
+	}
+	for _, row := range []bool{false, true} {
+		tok := int(tds.TDS_PARAMS)
+		if row {
+			tok = int(tds.TDS_ROW)
+		}
+		for _, wide := range []bool{false, true} {
+			for r := 0; r < reps; r++ {
+				// every data type alone with every valid length, with and without the column status byte; then mixes
+				type col struct {
+					f Fmt
+					d Data
+				}
+				var sets [][]col
+				mk := func(info dtInfo, n int, cs bool) col {
+					f := randFmt(g, info, wide, row, cs)
+					switch info.dt {
+					case asetypes.MONEYN, asetypes.DATEN, asetypes.TIMEN, asetypes.DATETIMEN, asetypes.BIGDATETIMEN, asetypes.BIGTIMEN:
+						// the library's value encoder sizes these by the format's maximum length: a client
+						// must declare the width it sends
+						if n > 0 {
+							f.maxLen = int64(n)
+						}
+					}
+					d := Data{raw: randValue(g, info, n)}
+					if cs {
+						d.status = []int{0, 0, 2}[g.Rng.Intn(3)]
+					}
+					if info.kind == 5 {
+						d.txtPtr = g.Rng.Bytes([]int{0, 16, 255}[g.Rng.Intn(3)])
+						d.ts = g.Rng.Bytes(8)
+					}
+					return col{f, d}
+				}
+				for _, info := range dts {
+					if info.fixed < 0 && info.lens == nil {
+						continue // value not decodable: covered by mal cases
+					}
+					if info.dt == asetypes.INTERVAL || info.dt == asetypes.SINT1 {
+						continue
+					}
+					lens := info.lens
+					if info.fixed >= 0 {
+						lens = []int{info.fixed}
+					}
+					for _, n := range lens {
+						sets = append(sets, []col{mk(info, n, false)}, []col{mk(info, n, true)})
+					}
+				}
+				for m := 0; m < 10; m++ {
+					var cs []col
+					for i := 0; i < g.Rng.Range(2, 7); i++ {
+						info := dts[g.Rng.Intn(len(dts)-4)]
+						lens := info.lens
+						if info.fixed >= 0 {
+							lens = []int{info.fixed}
+						}
+						cs = append(cs, mk(info, lens[g.Rng.Intn(len(lens))], g.Rng.Bool()))
+					}
+					sets = append(sets, cs)
+				}
+				for _, cs := range sets {
+					var fs []Fmt
+					var body []byte
+					exp := sx.L{}
+					var lens []int
+					for _, c := range cs {
+						fs = append(fs, c.f)
+						body = append(body, c.d.encode(c.f)...)
+						exp = append(exp, c.d.tree())
+						lens = append(lens, len(c.d.raw))
+					}
+					last := libFormat(fs, wide, row)
+					if last == nil {
+						continue
+					}
+					render := func(p tds.Package) sx.T {
+						var dfs []tds.FieldData
+						switch t := p.(type) {
+						case *tds.ParamsPackage:
+							dfs = t.DataFields
+						case *tds.RowPackage:
+							dfs = t.DataFields
+						}
+						l := sx.L{}
+						for i, d := range dfs {
+							l = append(l, DataTree(d, lens[i]))
+						}
+						return l
+					}
+					tag := fmt.Sprintf("data-%x;cols=%d", tok, len(cs))
+					if len(cs) == 1 {
+						tag = fmt.Sprintf("data-%x;dt=%x;len=%d", tok, int(cs[0].f.info.dt), len(cs[0].d.raw))
+					}
+					ctx := ctxTree(fs, wide, row)
+					g.DecCase(tok, body, ctx, last, exp, render, tag)
+					// the client writes TDS_PARAMS: let the library write the parsed package back
+					if !row {
+						if p := pk.Parse(tok, body, last); p.Class == 0 {
+							pp := p.Pkg.(*tds.ParamsPackage)
+							full := append([]byte{byte(tok)}, body...)
+							refok := func(bs []byte) bool { return string(bs) == string(full) }
+							fieldsIn := sx.L{ctx.(sx.L)[1], exp}
+							g.EncCase(tok, fieldsIn, pp, refok, "enc-"+tag)
+						}
+					}
+					// malformed: data length bytes replaced
+					if len(body) > 0 {
+						for k := 0; k < 3; k++ {
+							m := append([]byte{}, body...)
+							m[g.Rng.Intn(len(m))] = byte([]int{0, 1, 3, 255, g.Rng.Intn(256)}[g.Rng.Intn(5)])
+							g.MalCase(tok, m, ctx, last, "mal-mutated;"+tag)
+						}
+						g.MalCase(tok, append(append([]byte{}, body...), 9), ctx, last, "mal-extended;"+tag)
+					}
+				}
+				// every data type x every data length 0..255 (value-level totality through the package reader)
+				if r == 0 && !wide {
+					for _, info := range dts {
+						if info.fixed >= 0 || info.kind == 5 {
+							continue
+						}
+						f := randFmt(g, info, wide, row, false)
+						last := libFormat([]Fmt{f}, wide, row)
+						if last == nil {
+							continue
+						}
+						for n := 0; n <= 255; n++ {
+							if info.lenBytes != 1 && n > 40 {
+								break
+							}
+							d := Data{raw: g.Rng.Bytes(n)}
+							g.MalCase(tok, d.encode(f), ctxTree([]Fmt{f}, wide, row), last, fmt.Sprintf("mal-anylen;dt=%x", int(info.dt)))
+						}
+					}
+				}
+			}
+		}
+		// params/rows without a preceding format
+		g.MalCase(tok, []byte{1, 2, 3}, nil, nil, "mal-noformat")
+	}
+}
+
+func genDone(g *pk.Gen) {
+	for _, tok := range []int{int(tds.TDS_DONE), int(tds.TDS_DONEPROC), int(tds.TDS_DONEINPROC)} {
+		for _, st := range []int{0, 1, 2, 0x10, 0x11, 0x1a, 0xffff} {
+			for _, tr := range []int{0, 1, 3, 0xffff} {
+				for _, cnt := range []int64{0, 1, -1, 2147483647, -2147483648} {
+					body := pk.Cat(pk.LE16(st), pk.LE16(tr), pk.LE32(cnt))
+					exp := sx.L{sx.I(int64(st)), sx.I(int64(tr)), sx.I(cnt)}
+					render := func(p tds.Package) sx.T {
+						d := p.(*tds.DonePackage)
+						return sx.L{sx.I(int64(d.Status)), sx.I(int64(d.TranState)), sx.I(int64(d.Count))}
+					}
+					tag := fmt.Sprintf("done-%x", tok)
+					g.DecCase(tok, body, nil, nil, exp, render, tag)
+					if tok == int(tds.TDS_DONE) {
+						full := append([]byte{byte(tok)}, body...)
+						g.EncCase(tok, exp, &tds.DonePackage{Status: tds.DoneState(st), TranState: tds.TransState(tr), Count: int32(cnt)},
+							func(bs []byte) bool { return string(bs) == string(full) }, "enc-"+tag)
+					}
+				}
+			}
+		}
+		for i := 0; i < 50; i++ {
+			g.MalCase(tok, g.Rng.Bytes(g.Rng.Intn(12)), nil, nil, fmt.Sprintf("mal-random;done-%x", tok))
+		}
+	}
+}
+
+func eedBody(nr uint32, state, class int, sqlstate []byte, status, tran int, msg, server, proc string, line int) []byte {
+	inner := pk.Cat(pk.LE32(int64(nr)), []byte{byte(state), byte(class)}, pk.LP8(sqlstate), []byte{byte(status)}, pk.LE16(tran),
+		pk.LP16([]byte(msg)), pk.LP8([]byte(server)), pk.LP8([]byte(proc)), pk.LE16(line))
+	return append(pk.LE16(len(inner)), inner...)
+}
+
+func genEed(g *pk.Gen) {
+	tok := int(tds.TDS_EED)
+	render := func(p tds.Package) sx.T {
+		e := p.(*tds.EEDPackage)
+		return sx.L{sx.I(int64(e.MsgNumber)), sx.I(int64(e.State)), sx.I(int64(e.Class)), sx.B(e.SQLState), sx.I(int64(e.Status)),
+			sx.I(int64(e.TranState)), pk.S(e.Msg), pk.S(e.ServerName), pk.S(e.ProcName), sx.I(int64(e.LineNr))}
+	}
+	n := 60
+	if g.Thorough {
+		n = 2000
+	}
+	for i := 0; i < n; i++ {
+		nr := uint32(g.Rng.U64())
+		state, class := g.Rng.Intn(256), g.Rng.Intn(256)
+		sq := g.Rng.Bytes([]int{0, 5, 255}[g.Rng.Intn(3)])
+		status := []int{0, 1, 2, 3}[g.Rng.Intn(4)]
+		tran := g.Rng.Intn(65536)
+		msg := randName(g, []int{0, 1, 40, 700}[g.Rng.Intn(4)])
+		nl := false
+		if i%3 == 0 {
+			msg += "\n"
+			nl = true
+		}
+		server, proc := randName(g, 255), randName(g, 30)
+		line := g.Rng.Intn(65536)
+		body := eedBody(nr, state, class, sq, status, tran, msg, server, proc, line)
+		expMsg := msg
+		tag := "eed"
+		if nl {
+			expMsg = msg[:len(msg)-1] // documented: one trailing newline is trimmed by the reader
+			tag = "eed;newline"
+		}
+		exp := sx.L{sx.I(int64(nr)), sx.I(int64(state)), sx.I(int64(class)), sx.B(sq), sx.I(int64(status)), sx.I(int64(tran)),
+			pk.S(expMsg), pk.S(server), pk.S(proc), sx.I(int64(line))}
+		g.DecCase(tok, body, nil, nil, exp, render, tag)
+		// library writer against the reference bytes
+		e := &tds.EEDPackage{MsgNumber: nr, State: uint8(state), Class: uint8(class), SQLState: sq, Status: tds.EEDStatus(status),
+			TranState: uint16(tran), Msg: msg, ServerName: server, ProcName: proc, LineNr: uint16(line)}
+		full := append([]byte{byte(tok)}, body...)
+		encIn := sx.L{sx.I(int64(nr)), sx.I(int64(state)), sx.I(int64(class)), sx.B(sq), sx.I(int64(status)), sx.I(int64(tran)),
+			pk.S(msg), pk.S(server), pk.S(proc), sx.I(int64(line))}
+		g.EncCase(tok, encIn, e, func(bs []byte) bool { return string(bs) == string(full) }, "enc-"+tag)
+		for _, delta := range []int{-1, 1} {
+			m := append([]byte{}, body...)
+			m[0] = byte(int(m[0]) + delta)
+			g.MalCase(tok, m, nil, nil, "mal-length;eed")
+		}
+		m := append([]byte{}, body...)
+		m[g.Rng.Intn(len(m))] = byte(g.Rng.Intn(256))
+		g.MalCase(tok, m, nil, nil, "mal-mutated;eed")
+	}
+	for i := 0; i < 100; i++ {
+		g.MalCase(tok, g.Rng.Bytes(g.Rng.Intn(40)), nil, nil, "mal-random;eed")
+	}
+}
+
+func genEnv(g *pk.Gen) {
+	tok := int(tds.TDS_ENVCHANGE)
+	render := func(p tds.Package) sx.T {
+		l := sx.L{}
+		for _, m := range tds.VerifEnvMembers(p.(*tds.EnvChangePackage)) {
+			l = append(l, sx.L{sx.I(int64(m.Type)), pk.S(m.NewValue), pk.S(m.OldValue)})
+		}
+		return l
+	}
+	n := 80
+	if g.Thorough {
+		n = 3000
+	}
+	for i := 0; i < n; i++ {
+		cnt := i % 5
+		var inner []byte
+		exp := sx.L{}
+		var members []tds.EnvChangePackageField
+		for k := 0; k < cnt; k++ {
+			typ := []int{1, 2, 3, 4, 7}[g.Rng.Intn(5)]
+			nv, ov := randName(g, 255), randName(g, 255)
+			if typ == 4 {
+				nv = fmt.Sprint([]int{512, 2048, 9, 65535}[g.Rng.Intn(4)])
+			}
+			if g.Rng.Intn(3) == 0 {
+				ov = "" // an empty value after a non-empty one: must not inherit the previous member's value
+			}
+			inner = append(inner, pk.Cat([]byte{byte(typ)}, pk.LP8([]byte(nv)), pk.LP8([]byte(ov)))...)
+			exp = append(exp, sx.L{sx.I(int64(typ)), pk.S(nv), pk.S(ov)})
+			members = append(members, tds.EnvChangePackageField{Type: tds.EnvChangeType(typ), NewValue: nv, OldValue: ov})
+		}
+		body := append(pk.LE16(len(inner)), inner...)
+		tag := fmt.Sprintf("env;members=%d", cnt)
+		g.DecCase(tok, body, nil, nil, exp, render, tag)
+		full := append([]byte{byte(tok)}, body...)
+		g.EncCase(tok, exp, tds.VerifNewEnvChange(members), func(bs []byte) bool { return string(bs) == string(full) }, "enc-"+tag)
+		if len(body) > 2 {
+			for _, delta := range []int{-1, 1} {
+				m := append([]byte{}, body...)
+				m[0] = byte(int(m[0]) + delta)
+				g.MalCase(tok, m, nil, nil, "mal-length;env")
+			}
+		}
+	}
+	for i := 0; i < 100; i++ {
+		g.MalCase(tok, g.Rng.Bytes(g.Rng.Intn(30)), nil, nil, "mal-random;env")
+	}
+}
